@@ -7,7 +7,7 @@ dir=$1
 D=$(mktemp -d); mkdir -p "$D/vd"; cp /verif/known_findings.json /verif/trusted_sites.json /verif/baseline_functions.txt "$D/vd/"
 git -C /repo worktree add -q "$D/w" HEAD || exit 2
 if ! git -C "$D/w" apply "$dir/patch.diff" 2>/dev/null; then echo "$(basename $dir): PATCH DOES NOT APPLY"; git -C /repo worktree remove --force "$D/w"; rm -rf "$D"; exit 0; fi
-out=$(VERIF_DIR="$D/vd" GOMAXPROCS=${CHECK_PROCS:-4} /verif/bin/verif-sa check-all --repo "$D/w" 2>&1)
+out=$(VERIF_DIR="$D/vd" GOMAXPROCS=${CHECK_PROCS:-4} ${VERIF_BIN:-/verif/bin/verif-sa} check-all --repo "$D/w" 2>&1)
 alarms=$(echo "$out" | grep "^SUMMARY" | grep -v "violations=0 undecided=0" | sed 's/SUMMARY property=\([^ ]*\).*violations=\([0-9]*\) undecided=\([0-9]*\).*/\1(v\2,u\3)/' | tr '\n' ' ')
 n=$(echo "$out" | grep -c "^SUMMARY")
 echo "$(basename $dir): summaries=$n alarms=[${alarms}]"
